@@ -307,7 +307,10 @@ func recvStringFromBuffer(buffer *trzszBuffer, expectType string, mayHasJunk boo
 		idx := bytes.LastIndex(line, []byte("#"+expectType+":"))
 		if idx >= 0 {
 			line = line[idx:]
+		} else if idx = bytes.LastIndexByte(line, '#'); idx > 0 {
+			line = line[idx:]
 		}
+		line = stripTmuxStatusLine(line)
 	}
 
 	return decodeRelayBufferString(expectType, line)
